@@ -350,7 +350,12 @@ def ser_block(b):
         return ('\n\n' if b[2] else '\n').join(lines)
     if k == 'table':
         al = {'n': '---', 'l': ':---', 'r': '---:', 'c': ':---:'}
-        if len(b) > 5 and not b[5]:
+        if len(b) > 5 and b[5] == 'open' and len(b[1]) >= 2:
+            # leading and trailing pipes are optional
+            sep = '|'.join(al[a] for a in b[1])
+            rows = [' | '.join(ser_inl(c) for c in b[2]), ('|' + sep) if sep.startswith(':') else sep]      # (a line that starts with a colon would be a definition)
+            rows += [' | '.join(ser_inl(c) for c in r) for r in b[3]]
+        elif len(b) > 5 and not b[5]:
             rows = ['|' + '|'.join(ser_inl(c) for c in b[2]) + '|', '|' + '|'.join(al[a] for a in b[1]) + '|']
             rows += ['|' + '|'.join(ser_inl(c) for c in r) + '|' for r in b[3]]
         else:
